@@ -683,6 +683,13 @@ func LoadLinksForLayout(layout Layout, linkDir string) (map[string]map[string]Me
 		}
 
 		for _, linkPath := range linkFiles {
+			// Only regular files can be links. Reading anything else that
+			// happens to be named like a link, e.g. a named pipe, might
+			// block forever.
+			if info, err := os.Stat(linkPath); err != nil || !info.Mode().IsRegular() {
+				continue
+			}
+
 			linkEnv, err := LoadMetadata(linkPath)
 			if err != nil {
 				continue
